@@ -16,7 +16,7 @@ import (
 func init() {
 	Registry["C12"] = C12
 	Metas["C12"] = Meta{
-		Explanation: "Observational equivalence of histories is NOT decided. Decided is agreement of the twins' static summaries: (W1) API parity - the method sets of Cache and CacheOf[string, interface{}] and of Map and MapOf[string, interface{}] coincide in names and (after substituting K=string, V=interface{} and dropping the Of suffix) signatures, and constructors / options pair up with no member lacking a twin; (W2) for every public cache method the decision table computed by role evaluation (abstract key state seen by the deciding map operation -> map effect, returned roles, user-function calls, callbacks) of xsyncMap equals that of xsyncMapOf, including the TTL computation; (W3) for the maps: wrapper modes and adapter contracts agree, the compute cores have equal return-class tables (class -> result roles, effect, counter delta) under each mode, and every protocol-shape rule family (C03/C04 P1-P10) has the same verdict on both; (W4) config normalisation and defaults have equal tables. Internal event sequences are deliberately not compared (spin lock vs mutex, pointer pair vs immutable entry differ by design).",
+		Explanation: "Observational equivalence of histories is NOT decided. Decided is agreement of the twins' static summaries: (W1) API parity - the method sets of Cache and CacheOf[string, interface{}] and of Map and MapOf[string, interface{}] coincide in names and (after substituting K=string, V=interface{} and dropping the Of suffix) signatures, and constructors / options pair up with no member lacking a twin; (W2) for every public cache method the decision table computed by role evaluation (abstract key state seen by the deciding map operation -> map effect, returned roles, user-function calls, callbacks) of xsyncMap equals that of xsyncMapOf, including the TTL computation; (W3) for the maps: wrapper modes and adapter contracts agree, the compute cores have equal return-class tables (class -> result roles, effect, counter delta) under each mode, and every protocol-shape rule family (C03/C04 P1-P10) has the same verdict on both; (W4) config normalisation and defaults have equal tables and the constructors' structural verdicts (C15 families, default-constructor arguments) agree; (W7) the clock discipline verdicts (C01.T1: canonical shape, reading made in the call, inside the lock for liveness, before user code) agree per method. Other internal event sequences are deliberately not compared (spin lock vs mutex, pointer pair vs immutable entry differ by design).",
 		Rule:        "one obligation per (rule, method | wrapper | rule family); non-trivial = both twins' summaries were computed and compared",
 		Assumptions: []string{"twins are paired by name with the Of rule"},
 	}
@@ -73,6 +73,37 @@ func C12(r *Run) *core.Report {
 		rep.MinCount("C12.W5", "premise obligations (64-bit atomic operands aligned on 386)", n5, 2)
 	}
 	c12W4(r, rep)
+	// W7: the twins agree on *when* each method judges expiry: the per-method verdicts of the clock rules (canonical
+	// shape, reading made in the call, inside the lock for liveness, before user code runs) are the same for both -
+	// a method that reads the clock after its callback on one twin only reports differently under a slow callback
+	{
+		verdict := [2]map[string]bool{{}, {}}
+		for _, o := range C01(r).Obs {
+			if o.Rule != "C01.T1" || o.Trivial {
+				continue
+			}
+			for tw := 0; tw < 2; tw++ {
+				if r.M.CacheT[tw] == nil {
+					continue
+				}
+				pre := "cache.(*" + r.M.CacheT[tw].Obj().Name() + ")."
+				if strings.HasPrefix(o.Construct, pre) {
+					meth := strings.SplitN(strings.TrimPrefix(o.Construct, pre), " ", 2)[0]
+					if old, seen := verdict[tw][meth]; !seen || old {
+						verdict[tw][meth] = o.Status == core.Pass
+					}
+				}
+			}
+		}
+		var diff []string
+		for m, v := range verdict[0] {
+			if w, ok := verdict[1][m]; ok && w != v {
+				diff = append(diff, fmt.Sprintf("%s (Cache: %v, CacheOf: %v)", m, v, w))
+			}
+		}
+		sort.Strings(diff)
+		rep.Check(len(diff) == 0, "C12.W7", "clock discipline twins", "-", fmt.Sprintf("%d methods judge expiry with the same clock discipline on both twins", len(verdict[0])), "the twins judge expiry at different points of the call: "+strings.Join(diff, "; "))
+	}
 	return rep
 }
 
